@@ -1,6 +1,7 @@
 package vc
 
 import (
+	"sort"
 	"fmt"
 	"os"
 	"runtime/debug"
@@ -36,6 +37,7 @@ type Env struct {
 	atCallSite bool // evaluating a callee's ensures for assumption: trace functions are not available
 	fn       *ssa.Function // the function whose contract is being evaluated (nil for external contracts)
 	reps     map[string]*spec.Represents // ghost name -> coupling expression (refinement of an interface model contract)
+	foreignAlloc bool // evaluating a monitor invariant at acquisition: allocated(x) means "exists and is not an allocation of this unit"
 }
 
 type traceAtCallSite struct{}
@@ -734,8 +736,11 @@ func (env *Env) quant(e *spec.Quant) Value {
 	c.bound[e.Var] = scalar(t, smt.Sym(vn, ls[0].Sort))
 	// evaluation under a binder must not create named definitions or assumptions mentioning the bound variable
 	c.st = env.st.clone()
+	if c.st.atLock != nil {
+		c.st.atLock = c.st.atLock.clone()
+	}
 	if env.old != nil {
-		c.old = env.old
+		c.old = env.old.clone()
 	}
 	en.ctx.NoName++
 	// Quantifiers over slice positions are stated over the absolute index of a pivot slice, so that the
@@ -937,6 +942,9 @@ func (env *Env) resolveTypeIn(te *spec.TypeExpr, pkgPath string) types.Type {
 			}
 		}
 	}
+	if base == nil && te.Pkg == "" {
+		base = env.typeParamNamed(te.Name)
+	}
 	if base == nil {
 		specErr("unknown type %s", te)
 	}
@@ -947,6 +955,55 @@ func (env *Env) resolveTypeIn(te *spec.TypeExpr, pkgPath string) types.Type {
 		base = types.NewSlice(base)
 	}
 	return base
+}
+
+// typeParamNamed resolves the name of a type parameter of a generic type through the values in scope: a value of type
+// *Map[string, Socket] binds TKey to string; inside the generic method itself TKey stays the type parameter.
+func (env *Env) typeParamNamed(name string) types.Type {
+	look := func(t types.Type) types.Type {
+		n := namedOf(t)
+		if n == nil {
+			return nil
+		}
+		tps := n.Origin().TypeParams()
+		for i := 0; i < tps.Len(); i++ {
+			if tps.At(i).Obj().Name() != name {
+				continue
+			}
+			if args := n.TypeArgs(); args != nil && i < args.Len() {
+				return args.At(i)
+			}
+			return tps.At(i)
+		}
+		return nil
+	}
+	var keys []string
+	for k := range env.names {
+		keys = append(keys, k)
+	}
+	sort.Strings(keys)
+	for _, k := range keys {
+		if v := env.names[k]; v.T != nil {
+			if t := look(v.T); t != nil {
+				return t
+			}
+		}
+	}
+	if env.oldNames != nil {
+		keys = keys[:0]
+		for k := range env.oldNames {
+			keys = append(keys, k)
+		}
+		sort.Strings(keys)
+		for _, k := range keys {
+			if v := env.oldNames[k]; v.T != nil {
+				if t := look(v.T); t != nil {
+					return t
+				}
+			}
+		}
+	}
+	return nil
 }
 
 func exprString(e spec.Expr) string {
